@@ -147,7 +147,26 @@ theorem put_shape (S t : List Slot) (g : Nat) (x : Slot) (hg : g < t.length) :
   rw [List.take_left, List.drop_append]
   have : S.length + g - S.length = g := by omega
   rw [this, List.drop_of_length_le (by omega), List.nil_append]
-  sorry
+  rw [drop_set_self _ _ _ hg]
+
+/-! ### the specification's verdicts and release sets -/
+
+theorem fits_le (n : Nat) (h : n ≤ maxLen) : Seq.fits n ≠ .mustRefuse := by
+  unfold Seq.fits; rw [if_neg (by omega)]; split <;> simp
+
+theorem fits_gt (n : Nat) (h : 2 * n > maxLen) : Seq.fits n ≠ .mustServe := by
+  unfold Seq.fits; split
+  · simp
+  · rw [if_neg (by omega)]; simp
+
+theorem putReleased_eq (s : Seq) (i : Nat) (hi : i < s.length) : Seq.putReleased s i = releaseOf s[i] := by
+  unfold Seq.putReleased
+  rw [List.getElem?_eq_getElem hi]
+  cases s[i] <;> rfl
+
+theorem putReleased_ge (s : Seq) (i : Nat) (hi : s.length ≤ i) : Seq.putReleased s i = [] := by
+  unfold Seq.putReleased
+  rw [List.getElem?_eq_none hi]
 
 /-! ### array_list_expand_internal -/
 
